@@ -7,7 +7,8 @@
 
    Correspondence: the extracted model (Model.SIO) is run on the very bytes the client could read
    (BMC: the whole conversation through [bmc_session]; PDR: the faulty call through [one_*]), in
-   both variants - [Fix] (repaired reader) and [Cur] (today's code).
+   two variants - [repo_reader] (the variant that mirrors read_response of the /repo under test, see
+   below) and [Cur] (the code before the repairs).
    Property oracle (independent of the model): with a fault injected the run must end with an error
    (carrying the solver's message unmangled) or with the fault-free verdict only when the faulty reply
    still delivered the answer intact (split / pad / reply-then-exit); never hang, never panic. *)
@@ -185,6 +186,13 @@ let via_nominal : 'a. outcome -> 'a res -> outcome = fun nominal r -> outcome_of
 
 let fuel = nat_of_int 1500
 
+(* THE SWITCH.  Which variant of Model/SolverIO.v mirrors SmtLibSolverCtx::read_response of the /repo under test:
+     Fix   the lines of one reply are joined with an extra blank (self.response.push(' ')): /repo today;
+     Fix2  joined as read: /repo once patches/0019-fix-read-response-no-extra-blank.diff is committed there.
+   Flip this one constant to [Fix2] together with the known_findings.txt edit described in NOTES-c15ml.md. *)
+let repo_reader : variant = Fix
+let repo_reader_name = match repo_reader with Cur -> "cur" | Fix -> "fix" | Fix2 -> "fix2"
+
 let handle (c : Sexp.t) : string =
   let fields = match c with Sexp.List (_ :: _ :: f) -> f | _ -> raise (Sexp.Parse_error "case") in
   let id = match c with Sexp.List (_ :: i :: _) -> Sexp.atom i | _ -> "?" in
@@ -253,7 +261,7 @@ let handle (c : Sexp.t) : string =
   let is_ctx = String.length fault >= 4 && String.sub fault 0 4 = "ctx-" in
   let family = if engine = "bmc" then "bmc" else "pdr" in
   let skip_model = (engine <> "bmc" && point < 0) || is_ctx in
-  let o_fix = if skip_model then impl else predict Fix in
+  let o_fix = if skip_model then impl else predict repo_reader in
   let o_cur = if skip_model then impl else predict Cur in
 
   (* ---------------- the property oracle on what the implementation did *)
@@ -291,7 +299,7 @@ let handle (c : Sexp.t) : string =
         (* The documented blocking class (theorem C15_blocked_only_on_open_reply): a LIVE solver has written a
            reply that is lexically incomplete - open parenthesis outside literals, or an unterminated string
            literal (an error reply whose message is a single double quote) - and says nothing more.  A reader without a timeout has to wait; the
-           model of the repaired reader says Blocked too.  Not a violation. *)
+           model of the repaired reader ([repo_reader]) says Blocked too.  Not a violation. *)
         Ok ()
     | "hang" ->
         let nb = naive_balance emitted and ab = aware_balance emitted in
@@ -308,7 +316,8 @@ let handle (c : Sexp.t) : string =
     | "err" ->
         (match sent_error_message with
          | Some m when impl.sub = "from-solver" && impl.text <> m ->
-             (* read_response joins the lines of a reply with an extra blank (solver.rs pushes a blank before every further line) *)
+             (* read_response joins the lines of a reply with an extra blank (solver.rs pushes a blank before every further
+                line): the defect repaired by patches/0019; the model variant Fix predicts it, Fix2 does not *)
              let with_blanks = String.concat "\n " (String.split_on_char '\n' m) in
              if String.contains m '\n' && impl.text = with_blanks
              then Error ("error-message-blank-after-newline", Printf.sprintf "solver said %S, the error carries %S" m impl.text)
@@ -330,15 +339,16 @@ let handle (c : Sexp.t) : string =
     | _ -> Error ("crash", "unknown outcome class")
   in
   let detail =
-    Printf.sprintf "engine=%s point=%d kind=%s fault=%S impl=[%s] model(fix)=[%s] model(cur)=[%s] nominal=[%s]" engine point kind fault
-      (show impl) (show o_fix) (show o_cur) (show nominal)
+    Printf.sprintf "engine=%s point=%d kind=%s fault=%S impl=[%s] model(%s)=[%s] model(cur)=[%s] nominal=[%s]" engine point kind fault
+      (show impl) repo_reader_name (show o_fix) (show o_cur) (show nominal)
   in
   match oracle with
   | Error (key, what) ->
       let by_model =
         if is_ctx then " (context-level fault: observed on the real bmc/pdr, no model prediction)"
-        else if same o_cur impl then " (exactly what the model of the current code predicts)"
-        else " (NOT predicted by the model of the current code)" in
+        else if same o_fix impl then " (exactly what the model of /repo's reader, variant " ^ repo_reader_name ^ ", predicts)"
+        else if same o_cur impl then " (exactly what the model of the unrepaired code predicts)"
+        else " (NOT predicted by the model)" in
       Registry.result ~id ~status:"fail" ~key ~detail:(what ^ by_model ^ "; " ^ detail) ()
   | Ok () ->
       if same o_fix impl then
